@@ -347,6 +347,12 @@ def run(ctx: C.Ctx):
         for idx, (npos, kwl) in enumerate(shapes):
             cases.append(make_case(name, r["sig"], npos, kwl))
             origin.append("canonical")
+            if (kwl or npos >= 2) and (perm_budget is None or idx in perm_budget):
+                # the same shape with optional spaces around '=', ',' and inside the parentheses
+                lay = make_case(name, r["sig"], npos, kwl)
+                lay["sp"] = 1 + idx % 3
+                cases.append(lay)
+                origin.append("layout")
             if len(kwl) >= 2 and (perm_budget is None or idx in perm_budget):
                 seen = {tuple(kwl)}
                 for _ in range(n_perm_k):
@@ -373,7 +379,7 @@ def run(ctx: C.Ctx):
         m_redu = m_py = m_guard = None
 
     dist = {"rows": len(rows), "host_only_methods": len(info["host_only"]), "canonical_shapes": origin.count("canonical"),
-            "keyword_permutations": origin.count("permutation"), "python_rejected_extras": len(extras),
+            "keyword_permutations": origin.count("permutation"), "spacing_variants": origin.count("layout"), "python_rejected_extras": len(extras),
             "outcomes": {}, "exception_kinds": {}, "per_row_shapes": {}, "npos": {}, "n_keywords": {}, "defaults_omitted": {},
             "excluded_by_finding": {}}
     row_real_agrees = {n: True for n in rows}
@@ -469,7 +475,7 @@ def run(ctx: C.Ctx):
         "evaluations": len(cases) + len(extras),
         "distinct_nontrivial": len(nontrivial),
         "oracle_cases_inside_guard": n_oracle,
-        "rule": "for every row (constructor / method / Core helper with a transpiler handler): every positional count 0..#positional-or-keyword, every subset of the remaining parameters that contains all required ones, passed as keywords in signature order (= every shape inspect.signature(...).bind accepts, up to keyword order) plus seeded keyword permutations; each parameter carries its own distinct literal so the binding is read off the IR fields; distinct non-trivial = distinct (row, positional count, keyword set) of rows that have at least one parameter; plus shapes Python rejects (too many positionals, unknown keyword, positional+keyword, missing required) for the py_bind model only",
+        "rule": "for every row (constructor / method / Core helper with a transpiler handler): every positional count 0..#positional-or-keyword, every subset of the remaining parameters that contains all required ones, passed as keywords in signature order (= every shape inspect.signature(...).bind accepts, up to keyword order) plus seeded keyword permutations and, for every shape, a re-spaced spelling (`k = v`, `k =v , `, `( k= v )`); each parameter carries its own distinct literal so the binding is read off the IR fields; distinct non-trivial = distinct (row, positional count, keyword set) of rows that have at least one parameter; plus shapes Python rejects (too many positionals, unknown keyword, positional+keyword, missing required) for the py_bind model only",
         "samples": samples,
         "distribution": dist,
         "exhaustive": True,
